@@ -1028,6 +1028,8 @@ func writeEvidence(verif, prop, tier string, seed, nObl, nDis, nSmoke, nSmokeOK 
 	if len(fucs) == 0 {
 		// no function body was verified: every obligation of this run is a structural scan
 		level = "other"
+		cov["evaluations"] = nObl
+		cov["distinct_nontrivial"] = nObl
 		cov["note"] = "every obligation of this property is discharged by a scan of the SSA / call graph of the real code (reference-walk completeness), not by an SMT proof"
 	}
 	ev := map[string]any{
